@@ -607,6 +607,9 @@ EXACT = {'LumpedConstituentRouting', 'InstreamCoarseSediment', 'InstreamParticul
          'StorageDissolvedDecay'}
 
 
+ILL = {}        # out-of-domain cases accepted by the measured-sensitivity allowance (condlib): count, amplification, runs
+
+
 def agree(case, ri, rm):
     if case.model in EXACT and not case.meta.get('decay'):
         return kresults_agree(ri, rm)
@@ -801,6 +804,16 @@ def main():
         c.count((cs.model, cs.params, cs.states, cs.inputs), nontrivial=anyflow)
         diff = agree(cs, ri, rm)
         if diff:
+            # outside the kernels' domain only (a pole of a reported fraction): measured-sensitivity allowance, tools/condlib.py
+            import condlib
+            why = condlib.out_of_domain(cs.model, cs.params, cs.states, cs.inputs, rm)
+            if why:
+                pcs = condlib.perturbed(cs.params, cs.states, cs.inputs, key=cs.model)
+                pr = [parse_kresult(x) for x in run_model([kcase(cs.model, p2, s2, i2) for (_, p2, s2, i2, _) in pcs])]
+                if condlib.explained(ri, rm, pr, [w for (w, _, _, _, _) in pcs], info=ILL) is None:
+                    ILL['accepted'] = ILL.get('accepted', 0) + 1
+                    diff = None
+        if diff:
             pm['mismatch'] += 1
             c.corr_broken.append({'model': cs.model, 'diff': diff, 'line': lines[i]})
             log('CORRESPONDENCE MISMATCH', cs.model, diff)
@@ -863,7 +876,7 @@ def main():
             if not c.proof_broken:
                 c.proof_broken = ('coqchk OW.Properties.C12', e.output[-3000:])
     not_reproduced = sorted(k['id'] for k in c.known if k['id'] not in c.known_hits)
-    c.finish(extra_cov={'reused_output_arrays': stale_stats, 'driver_pow_snan_artefact_stream_skipped': driver_pow_snan_artefact, 'coqchk': chk, 'known_findings_not_reproduced_this_run': not_reproduced, 'per_model': per_model, 'branch_hits': dict(sorted(orc.branches.items())),
+    c.finish(extra_cov={'out_of_domain_cases_accepted_by_measured_sensitivity': dict(ILL), 'reused_output_arrays': stale_stats, 'driver_pow_snan_artefact_stream_skipped': driver_pow_snan_artefact, 'coqchk': chk, 'known_findings_not_reproduced_this_run': not_reproduced, 'per_model': per_model, 'branch_hits': dict(sorted(orc.branches.items())),
                         'prefix_runs': len(plines), 'exhaustive': False,
                         'oracle': 'per-step and cumulative mass budget (rtol 1e-9), loss only when working volume < 0.01, '
                                   'non-negative downstream loads and stores, remobilisation <= channel store'},
